@@ -8,7 +8,11 @@ import re
 
 def literal(rng, kind=None):
     """a random STRING literal (with quotes) and the bytes it denotes, written from the documented escapes"""
-    kind = kind if kind is not None else rng.randrange(6)
+    kind = kind if kind is not None else rng.randrange(7)
+    if kind == 6:
+        # literals that look like syntax: punctuation next to blanks, comment signs, keywords
+        s = rng.choice([" ;", "a ; b", "x ;", "; ", "{ }", " { ", " #c", "# x", "set", " set uri ", "}", ";;", "  ", "a  b", "print;"])
+        return '"' + s + '"', s.encode()
     if kind == 0:
         s = "".join(rng.choice("abcXYZ019 /._-=:;{}#%&?") for _ in range(rng.randrange(0, 12)))
         return '"' + s + '"', s.encode()
